@@ -190,27 +190,42 @@ structure TPResult where
   queue : List WRec
 deriving Repr, DecidableEq, Inhabited
 
-/-- `takePenalty(currentDB, val, penaltyAmount)`.  `Stake = 0`: no per-stake share, the whole amount is remainder
-(borne by the validator itself) — the guard of the F-C05c repair; otherwise big.Int `QuoRem` (truncated). -/
-def takePenalty (unit : Int) (queue : List WRec) (v : Val) (amount : Int) : TPResult :=
-  let obligation : Int := if 0 < v.risk ∧ v.risk ≤ 10000 then amount * (v.risk : Int) / 10000 else 0
-  let currTotal := amount - obligation
-  let per := if v.stake = 0 then 0 else Int.tdiv currTotal v.stake
-  let rem := if v.stake = 0 then currTotal else Int.tmod currTotal v.stake
-  let selfPenalty := per * v.selfStake + rem + obligation
-  let dlg : RMap := v.delegs.foldl (fun m d => rmSet m d.delegator (per * d.stake)) []
-  let wl := wloop v.addr queue { pen := amount, total := 0, self := selfPenalty, dlg := dlg }
-  let a := wl.2
+/-- risk obligation of the validator itself: `amount * RiskObligation / 10000` when 0 < RiskObligation ≤ 10000 -/
+def obligationOf (v : Val) (amount : Int) : Int :=
+  if 0 < v.risk ∧ v.risk ≤ 10000 then amount * (v.risk : Int) / 10000 else 0
+
+/-- per-stake share of the rest.  `Stake = 0`: no per-stake share, the whole rest is remainder (the guard of the
+F-C05c repair); otherwise big.Int `QuoRem` (truncated division). -/
+def perOf (v : Val) (amount : Int) : Int :=
+  if v.stake = 0 then 0 else Int.tdiv (amount - obligationOf v amount) v.stake
+
+def remOf (v : Val) (amount : Int) : Int :=
+  if v.stake = 0 then amount - obligationOf v amount else Int.tmod (amount - obligationOf v amount) v.stake
+
+/-- `selfPenalty`: the validator's own share = per * SelfStake + remainder + obligation -/
+def selfShare (v : Val) (amount : Int) : Int := perOf v amount * v.selfStake + remOf v amount + obligationOf v amount
+
+/-- `dlgPenalty`: per * Stake of each delegation, keyed by delegator -/
+def dlgShares (per : Int) : List Deleg → RMap → RMap
+  | [], m => m
+  | d :: ds, m => dlgShares per ds (rmSet m d.delegator (per * d.stake))
+
+/-- second and third loop of takePenalty (only when something is still owed after the withdraw queue):
+self deposit, then delegations.  Returns the new record and the total taken so far. -/
+def depositPhase (unit : Int) (v : Val) (a : Acc) : Val × Int :=
   if a.pen > 0 then
     let c0 : DAcc := { pen := a.pen, total := a.total, vtoken := v.token, vstake := v.stake }
-    -- self deposit
     let sf := if a.self > 0 then minTake v.selfToken a.self else 0
     let s1 := if sf > 0 then updCounter unit sf v.selfToken v.selfStake c0 else (v.selfToken, v.selfStake, c0)
     let dl := dloop unit a.dlg v.delegs s1.2.2
-    { newVal := { v with token := dl.2.vtoken, stake := dl.2.vstake, selfToken := s1.1, selfStake := s1.2.1, delegs := dl.1 },
-      total := dl.2.total, queue := wl.1 }
-  else
-    { newVal := v, total := a.total, queue := wl.1 }
+    ({ v with token := dl.2.vtoken, stake := dl.2.vstake, selfToken := s1.1, selfStake := s1.2.1, delegs := dl.1 }, dl.2.total)
+  else (v, a.total)
+
+/-- `takePenalty(currentDB, val, penaltyAmount)` -/
+def takePenalty (unit : Int) (queue : List WRec) (v : Val) (amount : Int) : TPResult :=
+  let wl := wloop v.addr queue { pen := amount, total := 0, self := selfShare v amount, dlg := dlgShares (perOf v amount) v.delegs [] }
+  let dp := depositPhase unit v wl.2
+  { newVal := dp.1, total := dp.2, queue := wl.1 }
 
 /-! ## doPenalize (type double sign) -/
 
@@ -292,36 +307,63 @@ structure Env (σ : Type) where
   parent : Nat             -- parentHeight = CurrentHeader().Number
   hdrNum : Nat             -- header.Number of the block being built / validated
 
+/-- the guards of `processDoubleSignV5` that do not look at the chain: type, decoding, pair count, distinct hashes,
+round window -/
+inductive Pre where
+  | drop (why : Nat)
+  | pend
+  | go                       -- evidence of the parent round: look the signer up and verify
+deriving Repr, DecidableEq, Inhabited
+
+def precheck {σ : Type} (env : Env σ) (e : Ev σ) : Pre :=
+  if !e.typeOK then .drop 0
+  else if !e.decodeOK then .drop 1
+  else if e.pairs.length < 2 then .drop 2
+  else if !distinctHashes e.pairs then .drop 3
+  else if e.round = env.parent then .go
+  else if e.round > env.parent then .pend
+  else if env.parent - e.round ≤ env.cfg.maxExpired then .pend
+  else .drop 11
+
+/-- signer lookup by index in the look-back set of the evidence's round, BLS verification of every pair under the
+indexed validator's key, non-zero main address -/
+def findSigner {σ : Type} (env : Env σ) (e : Ev σ) : Except Nat (LbEntry × Key) :=
+  match lookBackSet env.cfg env.chain e.round (e.voteType == 5) with
+  | none => .error 4
+  | some vs =>
+    match vs[e.signerIdx]? with
+    | none => .error 5
+    | some signer =>
+      match signer.key with
+      | none => .error 6
+      | some k =>
+        if !(e.pairs.all fun p => env.verify k (payload p.1 e.round e.roundIndex) p.2) then .error 7
+        else if signer.addr = 0 then .error 8
+        else .ok (signer, k)
+
+/-- the penalty amount and `doPenalize` on the current record `v` -/
+def penaltyOf {σ : Type} (env : Env σ) (st : St) (v : Val) : TPResult :=
+  doPenalize env.cfg env.hdrNum st.queue v (v.token * (env.cfg.frac : Int) / 100)
+
+/-- the state after `doPenalize` on `v`: record replaced, queue updated, PenaltyTo credited -/
+def penalise {σ : Type} (env : Env σ) (st : St) (v : Val) : St :=
+  let r := penaltyOf env st v
+  { vals := setVal st.vals r.newVal, queue := r.queue, penaltyTo := st.penaltyTo + r.total }
+
 /-- `processDoubleSignV5` for one evidence: new state, new once-per-validator set, verdict -/
 def processOne {σ : Type} (env : Env σ) (st : St) (seen : List Addr) (e : Ev σ) : St × List Addr × Verdict :=
-  if !e.typeOK then (st, seen, .dropped 0)
-  else if !e.decodeOK then (st, seen, .dropped 1)
-  else if e.pairs.length < 2 then (st, seen, .dropped 2)
-  else if !distinctHashes e.pairs then (st, seen, .dropped 3)
-  else if e.round = env.parent then
-    match lookBackSet env.cfg env.chain e.round (e.voteType == 5) with
-    | none => (st, seen, .dropped 4)
-    | some vs =>
-      match vs[e.signerIdx]? with
-      | none => (st, seen, .dropped 5)
-      | some signer =>
-        match signer.key with
-        | none => (st, seen, .dropped 6)
-        | some k =>
-          if !(e.pairs.all fun p => env.verify k (payload p.1 e.round e.roundIndex) p.2) then (st, seen, .dropped 7)
-          else if signer.addr = 0 then (st, seen, .dropped 8)
-          else if seen.contains signer.addr then (st, seen, .dropped 9)
-          else
-            match findVal st.vals signer.addr with
-            | none => (st, seen, .dropped 10)
-            | some v =>
-              let amount := v.token * (env.cfg.frac : Int) / 100
-              let r := doPenalize env.cfg env.hdrNum st.queue v amount
-              let st' : St := { vals := setVal st.vals r.newVal, queue := r.queue, penaltyTo := st.penaltyTo + r.total }
-              (st', signer.addr :: seen, .penalised signer.addr r.total)
-  else if e.round > env.parent then (st, seen, .pending)
-  else if env.parent - e.round ≤ env.cfg.maxExpired then (st, seen, .pending)
-  else (st, seen, .dropped 11)
+  match precheck env e with
+  | .drop n => (st, seen, .dropped n)
+  | .pend => (st, seen, .pending)
+  | .go =>
+    match findSigner env e with
+    | .error n => (st, seen, .dropped n)
+    | .ok (signer, _) =>
+      if seen.contains signer.addr then (st, seen, .dropped 9)
+      else
+        match findVal st.vals signer.addr with
+        | none => (st, seen, .dropped 10)
+        | some v => (penalise env st v, signer.addr :: seen, .penalised signer.addr (penaltyOf env st v).total)
 
 structure Run where
   st : St
